@@ -206,6 +206,8 @@ C16_OK(o) ==
 (* invocation with ordinal plan.ak makes the public call am.parent = av.   *)
 (* The listed properties quantify over hooks that observe and raise; what  *)
 (* is stated here is what they imply for hooks that use the library:       *)
+(* (`del am.children` for plans of kind "dc"; with plan.ar the hook raises  *)
+(* after its call.)                                                        *)
 (*  (1) the call made by the hook is an ordinary public call on the forest *)
 (*      the hook observes, and C01 C02 C03 C16 hold for it as for any      *)
 (*      other call (the interrupted call must have left the forest in the  *)
@@ -222,18 +224,19 @@ Acted(o) == /\ o.plan.mode = "act" /\ o.plan.ak \in 1..Len(o.log)
             /\ o.nest.lo = o.plan.ak + 1 /\ o.nest.hi \in o.plan.ak..Len(o.log)
 NestedObs(o) ==
   LET e == o.log[o.plan.ak] IN
-  [k |-> "sp", n |-> o.plan.am, v |-> o.plan.av, xs |-> <<>>, bad |-> FALSE, plan |-> NoFault, strict |-> o.strict,
+  [k |-> o.plan.akind, n |-> o.plan.am, v |-> o.plan.av, xs |-> <<>>, bad |-> FALSE, plan |-> NoFault, strict |-> o.strict,
    prepar |-> e.par, prech |-> e.ch, postpar |-> o.nest.par, postch |-> o.nest.ch, exc |-> o.nest.exc, src |-> 0,
    log |-> SubSeq(o.log, o.nest.lo, o.nest.hi), sure |-> TRUE]
 PerNodeHooks == {"pre_detach", "post_detach", "pre_attach", "post_attach"}
 NonInterfering(o) ==
   LET e == o.log[o.plan.ak]
-      m == o.plan.am
-      w == o.plan.av IN
-  /\ e.h \in PerNodeHooks => (m # e.n /\ (w = Nil \/ e.n \notin PathSet(e.par, w)))
+      w == o.plan.av
+      \* the nodes the hook's call moves
+      M == IF o.plan.akind = "sp" THEN {o.plan.am} ELSE ToSet(e.ch[o.plan.am]) IN
+  /\ e.h \in PerNodeHooks => (e.n \notin M /\ (w = Nil \/ e.n \notin PathSet(e.par, w)))
   \* with the library's internal assertions switched on, the children setter and deleter additionally re-count
   \* the children list they are working on
-  /\ (o.asrt /\ o.k # "sp") => (w # o.n /\ e.par[m] # o.n)
+  /\ (o.asrt /\ o.k # "sp") => (w # o.n /\ \A x \in M: e.par[x] # o.n)
 \* the properties of the nested call that fail, and those of the interrupted call
 ReViolated(o) ==
   IF ~Acted(o) THEN {}
